@@ -34,8 +34,11 @@ def _objective(oqupy, psys, pts, rho0, target, params, dt):
 def gradient_vs_finite_difference(inp):
     bad = []
     out = {}
-    for two in (False, True):
+    for two, partly_constant in ((False, False), (True, False), (False, True)):
         oqupy, psys, pts, rho0, target, params, dt, n = _setup(two)
+        if partly_constant:
+            # one parameter keeps its value over each full step while the other changes between the half steps
+            params[1::2, 1] = params[0::2, 1]
         res = oqupy.state_gradient(system=psys, initial_state=rho0, target_derivative=target.T, process_tensors=pts,
                                    parameters=params, progress_type='silent')
         grad = np.array(res['gradient']).real
@@ -48,14 +51,15 @@ def gradient_vs_finite_difference(inp):
                 p2[i, j] -= h
                 fd[i, j] = (_objective(oqupy, psys, pts, rho0, target, p1, dt)[0] - _objective(oqupy, psys, pts, rho0, target, p2, dt)[0]) / (2 * h)
         err = float(np.abs(grad - fd).max())
-        out['max|grad - finite difference| (%d env)' % (2 if two else 1)] = err
-        out['max|grad| (%d env)' % (2 if two else 1)] = float(np.abs(fd).max())
+        tag = '%d env%s' % (2 if two else 1, ', one parameter constant over each step' if partly_constant else '')
+        out['max|grad - finite difference| (%s)' % tag] = err
+        out['max|grad| (%s)' % tag] = float(np.abs(fd).max())
         # reported dynamics = forward dynamics of the same piecewise constant controls
         _, dyn = _objective(oqupy, psys, pts, rho0, target, params, dt)
         derr = float(np.abs(np.array(res['dynamics'].states) - np.array(dyn.states)).max())
         ferr = float(np.abs(np.array(res['final_state']) - np.array(dyn.states[-1])).max())
         if err > 1e-6 or derr > 1e-10 or ferr > 1e-10:
-            bad.append({'environments': 2 if two else 1, 'max_gradient_error': err, 'dynamics_mismatch': derr, 'final_state is not the last state': ferr})
+            bad.append({'environments': 2 if two else 1, 'one parameter constant over each step': partly_constant, 'max_gradient_error': err, 'dynamics_mismatch': derr, 'final_state is not the last state': ferr})
     return {'violates': bool(bad), 'detail': bad, **out}
 
 
